@@ -74,6 +74,11 @@ class SimRandom:
         self.side_draws = 0
         self._wcache = None
         self._wkey = None
+        self.rebind()
+
+    def rebind(self):
+        """(re)install this object's methods on the live RandomUtils instance"""
+        ru = self.ru
         for name in ('bool', 'word', 'integer', 'char', 'choice', 'sample', 'str',
                      'caps', 'range'):
             setattr(ru, name, getattr(self, name))
